@@ -214,7 +214,7 @@ def shape_conditional_only(body, name):
                 in_cond = True
                 break
             if name in S.idents(anc["cond"]):
-                other = anc.get("else_") if role == "then" else anc.get("then")
+                other = anc.get("else") if role == "then" else anc.get("then")
                 if other is None or name not in S.idents(other):
                     guarded = anc
         if in_cond:
